@@ -235,7 +235,7 @@ pub fn gen_func(
             if pac {
                 insns.push(a64(0xd503233f, Eff::Sign)); // paciasp
             }
-            let n = if p.chance(1, 4) { 16 * (9 + p.below(24)) } else { 16 * (1 + p.below(8)) };
+            let n = if p.chance(1, 4) { 16 * (9 + p.below(22)) } else { 16 * (1 + p.below(8)) };
             insns.push(a64(0xa980_0000 | (imm7(-(n as i64)) << 15) | (30 << 10) | (31 << 5) | 29, Eff::StpFpLrPre(n)));
             insns.push(a64(0x9100_03fd, Eff::AddFpSp(0))); // mov x29, sp
             epilogue.push(a64(0xa8c0_0000 | (imm7(n as i64) << 15) | (30 << 10) | (31 << 5) | 29, Eff::LdpFpLrPost(n)));
